@@ -17,7 +17,7 @@ from typing import Any, Dict, List, Optional
 
 from ..core import PropCheck
 
-BODY_ENDS = ["plain", "try_except", "try_finally", "cond_return"]
+BODY_ENDS = ["plain", "try_except", "try_finally", "cond_return", "try_except_reraise", "try_except_return", "try_except_raise_other"]
 
 
 def rand_tree(rng: random.Random, depth: int, fan: int) -> dict:
@@ -73,6 +73,34 @@ def run_tree(case) -> dict:
                     await open_nurseries(node, i + 1)
                 except KeyError:
                     pass
+        elif end in ("try_except_reraise", "try_except_return", "try_except_raise_other"):
+            # every except clause leaves: the only way into the exit sequence is from inside the try range
+            if end == "try_except_reraise":
+                async with trio.open_nursery() as nursery:
+                    for ch in spec["children"]:
+                        nursery.start_soon(task_fn, ch)
+                    try:
+                        await open_nurseries(node, i + 1)
+                    except KeyError:
+                        raise
+            elif end == "try_except_return":
+                async with trio.open_nursery() as nursery:
+                    for ch in spec["children"]:
+                        nursery.start_soon(task_fn, ch)
+                    try:
+                        await open_nurseries(node, i + 1)
+                    except KeyError:
+                        return
+                    except OSError:
+                        return 3
+            else:
+                async with trio.open_nursery() as nursery:
+                    for ch in spec["children"]:
+                        nursery.start_soon(task_fn, ch)
+                    try:
+                        await open_nurseries(node, i + 1)
+                    except KeyError as e:
+                        raise RuntimeError("other") from e
         elif end == "try_finally":
             async with trio.open_nursery() as nursery:
                 for ch in spec["children"]:
@@ -198,7 +226,7 @@ def run_hops(case) -> dict:
     async def main():
         async with trio.open_nursery() as outer:
             outer.start_soon(mk_async(max(m - 1, 0)) if m > 0 else mk_async(0))
-            await trio.sleep(0.15)
+            await trio.sleep(0.15 + 0.04 * m)
             root = [t for t in outer.child_tasks][0]
             with warnings.catch_warnings(record=True) as w:
                 warnings.simplefilter("always")
@@ -246,7 +274,7 @@ class C14(PropCheck):
         d = 2 if tier == "quick" else 3
         for _ in range(n):
             out.append({"k": "tree", "tree": rand_tree(rng, rng.randint(1, d), rng.randint(1, d))})
-        for m in range(0, 4):
+        for m in list(range(0, 4)) + [21, 22]:        # > 100 non-frame items on one stack: the loop guard must not fire
             out.append({"k": "hops", "hops": m})
         return out
 
